@@ -127,9 +127,11 @@ package main
 
 //@ readonly generatedFileCommentRE @compiled value != nil
 
-//@ spec fileNameOf(p *program, f *ast.File) string = pathBase(fsetPosition(p.fset, filePos(f)).Filename)
+// (the file's own name: the position that ignores //line directives)
+//@ spec fileNameOf(p *program, f *ast.File) string = pathBase(fsetRawPosition(p.fset, filePos(f)).Filename)
 // generated = the first comment group is a header (it ends before the package clause) and carries the marker
-//@ spec isGenSpec(f *ast.File) bool = len(f.Comments) != 0 && cgEnd(f.Comments[0]) <= f.Package && reMatch(generatedFileCommentRE, cgText(f.Comments[0]))
+// a file is generated when one of the comment groups of its header - the groups that end before the package clause - carries the marker
+//@ spec isGenSpec(f *ast.File) bool = exists k int :: 0 <= k && k < len(f.Comments) && reMatch(generatedFileCommentRE, cgText(f.Comments[k])) && (forall j int :: (0 <= j && j <= k) ==> cgEnd(f.Comments[j]) <= f.Package)
 //@ spec skipFile(p *program, f *ast.File) bool = (!p.checkTests && hasSuffix(fileNameOf(p, f), "_test.go")) || (!p.checkGenerated && isGenSpec(f))
 
 //@ func (*program).getFilename
@@ -142,7 +144,8 @@ package main
 //@   prop C16
 //@   requires f != nil
 //@   pure
-//@   ensures @first-comment-matches result <==> isGenSpec(f)
+//@   ensures @header-comment-matches result <==> isGenSpec(f)
+//@   loop 1 invariant @no-marker-so-far forall j int :: (0 <= j && j < $i) ==> (cgEnd(f.Comments[j]) <= f.Package && !reMatch(generatedFileCommentRE, cgText(f.Comments[j])))
 
 //@ func (*program).checkPackage
 //@   prop C16 C08 C15
@@ -200,3 +203,11 @@ package main
 //@   loop 1 invariant @len-fixed len(parts) == splitLen(s, ",")
 //@   loop 1 invariant @done-prefix forall k int :: (0 <= k && k < $i) ==> parts[k] == keyAt(s, k)
 //@   loop 1 invariant @todo-suffix forall k int :: ($i <= k && k < len(parts)) ==> parts[k] == splitAt(s, ",", k)
+
+// accepted command lines have an exit code the shell can tell from success and at least one worker
+//@ func (*program).parseArgs
+//@   prop C16 C01
+//@   nosafety the flag set is created by the constructor of program
+//@   requires p != nil
+//@   ensures @exit-code-is-a-failure-status result == nil ==> (1 <= p.exitCode && p.exitCode <= 255)
+//@   ensures @at-least-one-worker result == nil ==> p.concurrency >= 1
